@@ -506,6 +506,14 @@ func ext۰reflect۰Value۰FieldByName(fr *frame, args []value) value {
 func ext۰reflect۰valueInterface(fr *frame, args []value) value {
 	// Signature: func (v reflect.Value, safe bool) interface{}
 	v := args[0].(structure)
+	if t := rV2T(v).t; t != nil {
+		if _, ok := t.Underlying().(*types.Interface); ok {
+			// a Value of interface kind (map element / key of type any): the result is the interface value itself
+			if in, ok := rV2V(v).(iface); ok {
+				return in
+			}
+		}
+	}
 	return iface{rV2T(v).t, rV2V(v)}
 }
 
